@@ -35,7 +35,7 @@ structure FS where
 deriving Repr, DecidableEq
 
 def FS.empty : FS := ⟨[], []⟩
-def FS.get (fs : FS) (p : Path) : Option Bytes := (fs.files.find? (·.1 = p)).map (·.2)
+def FS.get (fs : FS) (p : Path) : Option Bytes := alookup fs.files p
 def FS.isFile (fs : FS) (p : Path) : Bool := (fs.get p).isSome
 def FS.isDir (fs : FS) (p : Path) : Bool := p = [] ∨ p ∈ fs.dirs
 /-- proper non-empty prefixes of a path: the directories `mkdir(parents=True)` creates for its parent -/
@@ -85,8 +85,8 @@ def relPath (s : List Char) : Option Path :=
 
 /-! ## operations -/
 
-def FS.erase (fs : FS) (p : Path) : FS := { fs with files := fs.files.filter (·.1 ≠ p) }
-def FS.write (fs : FS) (p : Path) (d : Bytes) : FS := { fs with files := (p, d) :: fs.files.filter (·.1 ≠ p) }
+def FS.erase (fs : FS) (p : Path) : FS := { fs with files := aerase fs.files p }
+def FS.write (fs : FS) (p : Path) (d : Bytes) : FS := { fs with files := ainsert fs.files p d }
 def FS.mkdirs (fs : FS) (ds : List Path) : FS := { fs with dirs := fs.dirs ++ ds.filter (fun d => d ∉ fs.dirs) }
 
 /-- primitive file-system steps of one upload attempt, in program order -/
